@@ -1,4 +1,6 @@
 import Btcdeb
+import Driver.Run
+import Driver.Gen
 open Btcdeb
 
 namespace Driver
@@ -65,6 +67,8 @@ def dispatch (spec : Bool) (line : String) : String :=
   | "SN" :: a => cmdSN spec a
   | "SNENC" :: a => cmdSNENC a
   | "SNSWEEP" :: a => cmdSNSWEEP a
+  | "RUN" :: a => cmdRun spec false a
+  | "RUNV" :: a => cmdRun spec true a
   | [""] => ""
   | _ => "bad-op"
 
@@ -80,6 +84,8 @@ def main (args : List String) : IO Unit := do
   let i ← IO.getStdin
   let o ← IO.getStdout
   match args with
+  | ["gen", "run", seed, n, maxOps, z] =>
+    for l in Driver.genRun seed.toNat! n.toNat! maxOps.toNat! (z == "1") do o.putStrLn l
   | ["spec"] => Driver.loop true i o
   | _ => Driver.loop false i o
   o.flush
